@@ -59,17 +59,22 @@ structure Cfg where
   overlapRightKey : BoundKey
   /-- plain API rejects keys longer than `maxKeySize`. -/
   plainKeyLimit : Bool
+  /-- a table hit is accepted when nothing was found yet, whatever its version.  As-is (`false`):
+      `table.Search` accepts only `*maxVs < version` with `maxVs` starting at 0 (and tables are
+      pruned on `MaxVersionVal() <= 0`), so an entry of version 0 is never found in an SST. -/
+  zeroVersionFound : Bool
   deriving DecidableEq, Repr
 
 def Cfg.good : Cfg :=
   { l0SearchDir := .newestFirst, tieRule := .lt, crossPick := .maxVersion, levelOrder := .ingestFirst,
     ingestOrder := .recency, immOrder := .newestFirst, mergeKeeps := .left,
-    compactTopOrder := .reversed, overlapRightKey := .minKey, plainKeyLimit := true }
+    compactTopOrder := .reversed, overlapRightKey := .minKey, plainKeyLimit := true,
+    zeroVersionFound := true }
 
-/-- The configuration of the pinned tree (4 bad decisions). -/
+/-- The configuration of the originally pinned tree. -/
 def Cfg.asis : Cfg :=
   { Cfg.good with l0SearchDir := .oldestFirst, crossPick := .firstHit, ingestOrder := .minKeyDesc,
-                  overlapRightKey := .maxKey, plainKeyLimit := false }
+                  overlapRightKey := .maxKey, plainKeyLimit := false, zeroVersionFound := false }
 
 /-- The read-path decisions the recency argument needs. -/
 def Cfg.ReadGood (c : Cfg) : Prop :=
@@ -77,7 +82,13 @@ def Cfg.ReadGood (c : Cfg) : Prop :=
   c.levelOrder = .ingestFirst ∧ c.ingestOrder = .recency ∧ c.immOrder = .newestFirst ∧
   c.mergeKeeps = .left ∧ c.compactTopOrder = .reversed
 
+/-- everything the refinement theorems over all modelled ops need: the read-path decisions, the
+    planner's overlap rule and version-0 hits -/
+def Cfg.AllGood (c : Cfg) : Prop :=
+  c.ReadGood ∧ c.overlapRightKey = .minKey ∧ c.zeroVersionFound = true
+
 instance Cfg.decReadGood (c : Cfg) : Decidable c.ReadGood := by unfold Cfg.ReadGood; exact inferInstance
+instance Cfg.decAllGood (c : Cfg) : Decidable c.AllGood := by unfold Cfg.AllGood; exact inferInstance
 
 def Cfg.Good (c : Cfg) : Prop := c = Cfg.good
 instance Cfg.decGood (c : Cfg) : Decidable c.Good := by unfold Cfg.Good; exact inferInstance
@@ -167,6 +178,13 @@ def tagFrom {α : Type} : Nat → List α → List (α × Nat)
 
 /-! ## state -/
 
+/-- a main table; `dead` = an ingest-keep merge consumed it as a bottom table: it is deleted in the
+    manifest but stays in `lh.tables` (and is searched) until the next reopen -/
+structure MTab where
+  ents : Src
+  dead : Bool := false
+  deriving DecidableEq, Repr
+
 structure St where
   mem : Src := []
   /-- sealed memtables, newest first -/
@@ -176,24 +194,27 @@ structure St where
   /-- ingest buffer of the base level, most recently added first -/
   ing : List Src := []
   /-- main tables of the base level in `lh.tables` order -/
-  main : List Src := []
+  main : List MTab := []
   /-- key ranges that `compact.State` still holds at the base level: a same-level compaction
       registers `ThisRange` and `NextRange` there but `State.Delete` removes only `ThisRange` -/
   stale : List (Bytes × Bytes) := []
-  /-- main tables an ingest-keep merge consumed: deleted in the manifest, still listed in memory -/
-  mainDead : List Src := []
   deriving Repr
+
+/-- the main tables' contents, in `lh.tables` order -/
+def St.mainE (s : St) : List Src := s.main.map (·.ents)
 
 /-! ## read path -/
 
 /-- one `table.Search` call inside a max-version scan: `MaxVersionVal` pruning, seek, tie rule -/
-def scan (op : CmpOp) (q : IK) : Nat × Option Entry → List Src → Nat × Option Entry
+def scan (op : CmpOp) (zf : Bool) (q : IK) : Nat × Option Entry → List Src → Nat × Option Entry
   | acc, [] => acc
   | (cur, best), t :: ts =>
-    if tmax t ≤ cur then scan op q (cur, best) ts
+    if (zf = false ∨ best ≠ none) ∧ tmax t ≤ cur then scan op zf q (cur, best) ts
     else match seek q t with
-      | some e => if op.nat cur e.ver then scan op q (e.ver, some e) ts else scan op q (cur, best) ts
-      | none => scan op q (cur, best) ts
+      | some e =>
+        if (zf = true ∧ best = none) ∨ op.nat cur e.ver = true then scan op zf q (e.ver, some e) ts
+        else scan op zf q (cur, best) ts
+      | none => scan op zf q (cur, best) ts
 
 def immVisit (c : Cfg) (imms : List Src) : List Src :=
   match c.immOrder with | .newestFirst => imms | .oldestFirst => imms.reverse
@@ -236,10 +257,11 @@ def mainCandidate (main : List Src) (uk : Bytes) : List Src :=
 
 def levelGet (c : Cfg) (s : St) (q : IK) : Option Entry :=
   let ingL := ingVisit c s.ing
-  let mainL := mainCandidate s.main (q.cf :: q.key)
+  let mainL := mainCandidate s.mainE (q.cf :: q.key)
+  let zf := c.zeroVersionFound
   match c.levelOrder with
-  | .ingestFirst => (scan c.tieRule q (scan c.tieRule q (0, none) ingL) mainL).2
-  | .mainFirst => (scan c.tieRule q (scan c.tieRule q (0, none) mainL) ingL).2
+  | .ingestFirst => (scan c.tieRule zf q (scan c.tieRule zf q (0, none) ingL) mainL).2
+  | .mainFirst => (scan c.tieRule zf q (scan c.tieRule zf q (0, none) mainL) ingL).2
 
 def firstSome : List (Option Entry) → Option Entry
   | [] => none
@@ -248,7 +270,7 @@ def firstSome : List (Option Entry) → Option Entry
 
 def get (c : Cfg) (s : St) (q : IK) : Option Entry :=
   let ms := (s.mem :: immVisit c s.imms).map (seek q)
-  let l0r := (scan c.tieRule q (0, none) (l0Visit c s.l0)).2
+  let l0r := (scan c.tieRule c.zeroVersionFound q (0, none) (l0Visit c s.l0)).2
   let lvr := levelGet c s q
   match c.crossPick with
   | .firstHit => firstSome (ms ++ [l0r, lvr])
@@ -329,10 +351,10 @@ def l0move (c : Cfg) (s : St) : St × Outcome :=
   match rangeOf (s.l0.drop (s.l0.length - k)) with
   | none => (s, .nothing)
   | some (lo, hi) =>
-    match overlapping c s.main lo hi with
+    match overlapping c s.mainE lo hi with
     | none => (s, .panic)
     | some (left, right) =>
-      let bot := (s.main.drop left).take (right - left)
+      let bot := (s.mainE.drop left).take (right - left)
       -- `CompareAndAdd` checks NextRange (= the bottom tables' range, or ThisRange without any)
       let nextR := if bot = [] then some (lo, hi) else rangeOf bot
       if staleHits s nextR then (s, .nothing) else (l0moveAt k s, .done)
@@ -356,11 +378,6 @@ def ingTop (c : Cfg) (ing : List Src) : List Src × List Src :=
     let top := (ingSorted ing).take batch
     (top.map (·.1), removeIdx (top.map (·.2)) ing)
 
-/-- remove one occurrence of `t` -/
-def eraseOne (t : Src) : List Src → List Src
-  | [] => []
-  | x :: xs => if x = t then xs else x :: eraseOne t xs
-
 structure IngPlan where
   top : List Src
   rest : List Src
@@ -375,10 +392,10 @@ def ingPlan (c : Cfg) (s : St) : Except Outcome IngPlan :=
   | none => .error .nothing
   | some (lo, hi) =>
     if staleHits s (some (lo, hi)) then .error .nothing else
-    match overlapping c s.main lo hi with
+    match overlapping c s.mainE lo hi with
     | none => .error .panic
     | some (left, right) =>
-      let bot := (s.main.drop left).take (right - left)
+      let bot := (s.mainE.drop left).take (right - left)
       if bot ≠ [] ∧ staleHits s (rangeOf bot) then .error .nothing
       else .ok ⟨top, rest, left, right, bot⟩
 
@@ -390,7 +407,8 @@ def addStale (s : St) (top bot : List Src) : List (Bytes × Bytes) :=
   | none => s.stale
 
 /-- ingest-keep: merge the first `batch` tables of the shard (and the main tables the plan
-    selected as bottom) into one new ingest table; the bottom tables stay listed in memory -/
+    selected as bottom) into one new ingest table; the bottom tables are deleted in the manifest
+    but stay listed in memory (`dead`) -/
 def keep (c : Cfg) (s : St) : St × Outcome :=
   match ingPlan c s with
   | .error o => (s, o)
@@ -399,7 +417,10 @@ def keep (c : Cfg) (s : St) : St × Outcome :=
     let ing' := match c.ingestOrder with
       | .recency => p.rest ++ [merged]
       | .minKeyDesc => merged :: p.rest
-    ({ s with ing := ing', stale := addStale s p.top p.bot, mainDead := p.bot ++ s.mainDead }, .done)
+    let main' := s.main.take p.left
+      ++ ((s.main.drop p.left).take (p.right - p.left)).map (fun t => { t with dead := true })
+      ++ s.main.drop p.right
+    ({ s with ing := ing', main := main', stale := addStale s p.top p.bot }, .done)
 
 /-- ingest-drain: merge them into one new main table that replaces the bottom tables -/
 def drain (c : Cfg) (s : St) : St × Outcome :=
@@ -408,17 +429,17 @@ def drain (c : Cfg) (s : St) : St × Outcome :=
   | .ok p =>
     let merged := mergeTables c (topOrder c p.top ++ [p.bot.flatten])
     ({ s with ing := p.rest,
-              main := sortStable minLt (s.main.take p.left ++ s.main.drop p.right ++ [merged]),
-              stale := addStale s p.top p.bot,
-              mainDead := p.bot.foldl (fun d t => eraseOne t d) s.mainDead }, .done)
+              main := sortStable (fun a b => minLt a.ents b.ents)
+                        (s.main.take p.left ++ s.main.drop p.right ++ [⟨merged, false⟩]),
+              stale := addStale s p.top p.bot }, .done)
 
 /-- close + open: every WAL segment becomes a memtable again (`recovery`; an empty arena still has
     a non-zero `MemSize`, so none is skipped), the newest stays active and the others are flushed
-    oldest first (an empty one yields no table); level lists are rebuilt from the manifest and
-    sorted; `compact.State` starts empty -/
+    oldest first (an empty one yields no table); level lists are rebuilt from the manifest (dead
+    main tables are gone) and sorted; `compact.State` starts empty -/
 def reopen (s : St) : St :=
   { s with imms := [], l0 := s.imms.filter (fun t => t ≠ []) ++ s.l0,
-           main := s.mainDead.foldl (fun m t => eraseOne t m) s.main, stale := [], mainDead := [] }
+           main := s.main.filter (fun t => !t.dead), stale := [] }
 
 /-! ## plain / versioned API on top -/
 
